@@ -8,4 +8,6 @@ mods=""
 if [ $# -eq 0 ]; then set -- $(ls props/*.v | sed 's#props/##; s#\.v##'); fi
 for p in "$@"; do mods="$mods DaspProps.$p"; done
 mkdir -p ../out
-time coqchk -o -silent -Q theories Dasp -Q gen DaspGen -Q props DaspProps $mods 2>&1 | tee ../out/coqchk_$(echo "$@" | tr ' ' '_' | cut -c1-40).log | tail -60
+log=../out/coqchk_$(echo "$@" | tr ' ' '_' | cut -c1-40).log
+( time coqchk -o -silent -Q theories Dasp -Q gen DaspGen -Q props DaspProps $mods ) > $log 2>&1; rc=$?
+tail -60 $log; echo "coqchk exit status: $rc"
